@@ -8,6 +8,7 @@
 import Blackbird.Listener
 import Blackbird.ArrayInsert
 import Blackbird.Lemmas.ToyScalar
+import Blackbird.Lemmas.Dict
 
 namespace Blackbird
 
@@ -229,5 +230,20 @@ example : assemble (K := ZS) .int (some [2, 2]) [[.num (.int 1), .num (.int 2)],
     = .ok (.arr .int 2 2 [.num (.int 1), .num (.int 2), .num (.int 3), .num (.int 4)]) := by decide
 example : assemble (K := ZS) .int none [[.num (.int 1), .num (.int 2), .num (.int 3)], [.num (.int 4)]]
     = .error .ragged := by decide
+
+/-- **A redeclaration replaces.** After a name has been declared twice the tables are exactly what they would be
+had only the second declaration been made: whatever is evaluated afterwards - `A[k]`, `A` as an argument, a
+mode read from it - sees the last declaration and no trace of the first (the evaluator keeps no other record
+of a variable than its table entry). -/
+theorem C05_redeclaration_replaces (T : Tables K) (x : String) (v w : Val K) :
+    ({ T with vars := dictSet (dictSet T.vars x v) x w } : Tables K) = { T with vars := dictSet T.vars x w } := by
+  rw [dictSet_dictSet]
+
+/-- in particular an index expression: `A[k]` after `A` was redeclared is an element of the new array -/
+theorem C05_index_after_redeclaration (T : Tables K) (x : String) (v : Val K) (dt : DType) (r c : Nat)
+    (flat : List (SExpr K)) (pos : Pos) (i : Expr) :
+    evalExpr ({ T with vars := dictSet (dictSet T.vars x v) x (.arr dt r c flat) } : Tables K) (.idx x pos i) =
+    evalExpr ({ T with vars := dictSet T.vars x (.arr dt r c flat) } : Tables K) (.idx x pos i) := by
+  rw [C05_redeclaration_replaces]
 
 end Blackbird
